@@ -1369,7 +1369,8 @@ fn variant_lists(max_len: usize, alphabet: &[S]) -> Vec<Vec<S>> {
 }
 
 fn id_menu(thorough: bool) -> Vec<Act> {
-    let mut m = vec![Act::SetLanguage("en"), Act::SetLanguage("ZH"), Act::SetLanguage("und"), Act::ClearLanguage];
+    // (`UND` / `Und`: other spellings of the absent language -- the same state as `und`)
+    let mut m = vec![Act::SetLanguage("en"), Act::SetLanguage("ZH"), Act::SetLanguage("und"), Act::SetLanguage("UND"), Act::SetLanguage("Und"), Act::ClearLanguage];
     if thorough {
         m.push(Act::SetLanguage("sr"));
     }
@@ -1450,7 +1451,7 @@ fn t_menu(thorough: bool) -> Vec<Act> {
         m.push(Act::RemoveTfield("s0"));
         m.push(Act::SetTlang("abcdefgh-Cyrl-419-fonipa-1abc"));
     }
-    for s in ["en", "und", "und-Latn", "EN_latn-us-1996", "de-valencia-1996", "abcdefgh", "abcde-001", "yue"] {
+    for s in ["en", "und", "UND", "Und-latn", "und-Latn", "EN_latn-us-1996", "de-valencia-1996", "abcdefgh", "abcde-001", "yue"] {
         m.push(Act::SetTlang(s));
     }
     m.push(Act::ClearTlang);
@@ -1545,7 +1546,7 @@ pub fn harnesses(ctx: &Ctx, which: &[&str]) -> Vec<std::sync::Arc<Harness>> {
         // two values per component, all components in one Locale, plus the conversions and
         // whole-field assignments
         let mut m = vec![
-            Act::SetLanguage("en"), Act::SetLanguage("und"), Act::ClearLanguage,
+            Act::SetLanguage("en"), Act::SetLanguage("und"), Act::SetLanguage("uND"), Act::ClearLanguage,
             Act::SetScript(None), Act::SetScript(Some("Latn")),
             Act::SetRegion(None), Act::SetRegion(Some("US")),
             Act::SetVariants(vec!["valencia"]), Act::SetVariants(vec!["valencia", "1996", "valencia"]), Act::SetVariants(vec![]), Act::ClearVariants,
@@ -1557,7 +1558,7 @@ pub fn harnesses(ctx: &Ctx, which: &[&str]) -> Vec<std::sync::Arc<Harness>> {
             Act::RemoveTfield("h0"), Act::RemoveTfield("k1"), Act::ClearTfields,
             Act::AddTag("a"), Act::AddTag("ZZ"), Act::AddTag(""), Act::RemoveTag("a"), Act::RemoveTag("zz"), Act::ClearTags,
             Act::ViaLangId,
-            Act::SetId("en-Latn-US-valencia"), Act::SetId("und"),
+            Act::SetId("en-Latn-US-valencia"), Act::SetId("und"), Act::SetId("UND"),
             Act::SetExtensions(""), Act::SetExtensions("-t-de-h0-hybrid-u-abc-ca-foo-x-a"), Act::SetExtensions("u-nu"),
             Act::ResetUnicode,
             // clone_from with sources made of component values of this menu: destination and
